@@ -160,6 +160,12 @@ func runCase(c *Case, res []*regexp.Regexp, trace bool) (r Result) {
 		chain = []string{rootURL, c.Parent, c.Text}
 	}
 	root := newItem(chain[0])
+	// the sources hand the reactor a seed they have parsed (hq/consumer.go, lq/consumer.go); a seed whose
+	// text does not parse goes to the finisher at once
+	if err := root.GetURL().Parse(); err != nil {
+		r.Skipped = "the source discards the seed (it does not parse): " + chain[0]
+		return
+	}
 	cur := root
 	var forget []string
 	var sent []*models.Item
